@@ -1,1 +1,351 @@
-(** Props/C10.v — placeholder, to be written. *)
+(** Props/C10.v — contextmerge changes only the named paths; default never overwrites.
+
+    Model: Model/Merge.v ([merge_rec] = Context.merge.merge_recurse, [defaults_rec] =
+    Context.set_defaults.defaults_recurse, over the formatter of Model/Format.v).  The whole
+    context is threaded, so a key or value is formatted against the context as it is at
+    that moment; [s_tr] is the ghost trace of every path written; [named_by] ties each
+    written path to a key path of the incoming tree, key by key, through formatting.
+
+    All theorems hold for ALL pairs of trees, every fuel, every cursor, every status (an error
+    half-way leaves a partially merged context — the frame covers that too).
+
+    Findings (see the [_refuted] theorems):
+      F1  a value the formatter returns BY REFERENCE ([{k:ff}], [!py k]) followed by an
+          incoming key that formats to the same key mutates the shared object in place: a
+          path nobody named changes.  Holds for merge and for set_defaults.  The full frame
+          statements are therefore false; the [_partial] versions carry the hypothesis
+          [s_sh s' = NoShare] (no by-reference value was stored during the run).
+      F2  "named" cannot be read statically (format the incoming mapping against the context
+          as it was before): keys are formatted one at a time against the context being
+          merged into, so a key can read a key merged a moment earlier.
+
+    "The incoming mapping is left unmodified": a Gallina function cannot mutate its argument,
+    so this holds of the model by construction and has no proof content; it is carried by
+    the correspondence run (before/after snapshots of the incoming tree, value and identity). *)
+From PV Require Import Format FormatProofs Merge MergeProofs.
+Open Scope string_scope.
+
+(** * merge: the frame *)
+(** FULL STATEMENT (false, see [C10_merge_frame_refuted]):
+      forall ff prot fuel s a items stt s',
+        merge_rec ff prot fuel s a items = (stt, s') ->
+        exists new, s_tr s' = new ++ s_tr s /\
+          forall p, (forall w, In w new -> disjoint p w) ->
+            lookup_path (VDict (s_root s')) p = lookup_path (VDict (s_root s)) p.
+    PROVED with the excluding hypothesis inside [frame_rel]: [s_sh s' = NoShare]. *)
+Theorem C10_merge_frame_partial : forall ff prot fuel s a items stt s',
+  merge_rec ff prot fuel s a items = (stt, s') ->
+  s_sh s' = NoShare ->
+  s_sh s = NoShare /\
+  exists new, s_tr s' = (new ++ s_tr s)%list /\
+    forall p, (forall w, In w new -> disjoint p w) ->
+      lookup_path (VDict (s_root s')) p = lookup_path (VDict (s_root s)) p.
+Proof. exact merge_rec_frame. Qed.
+Print Assumptions C10_merge_frame_partial.
+
+(** the same for a whole [Context(root).merge(add)] *)
+Theorem C10_merge_top_frame_partial : forall ff fuel root add stt s',
+  merge_top ff fuel root add = (stt, s') -> s_sh s' = NoShare ->
+  forall p, (forall w, In w (s_tr s') -> disjoint p w) ->
+    lookup_path (VDict (s_root s')) p = lookup_path (VDict root) p.
+Proof. exact merge_top_frame. Qed.
+Print Assumptions C10_merge_top_frame_partial.
+
+Theorem C10_merge_frame_refuted :
+  exists root add p s',
+    merge_top FUEL FUEL root add = (SOk, s') /\
+    (forall w, In w (s_tr s') -> disjoint p w) /\
+    lookup_path (VDict (s_root s')) p <> lookup_path (VDict root) p.
+Proof. exact merge_frame_refuted. Qed.
+Print Assumptions C10_merge_frame_refuted.
+
+Theorem C10_merge_frame_static_refuted :
+  exists root add fadd k s',
+    format_value FUEL root (VDict add) = Ok (VDict fadd) /\
+    merge_top FUEL FUEL root add = (SOk, s') /\ s_sh s' = NoShare /\
+    dict_get k fadd = None /\
+    lookup_path (VDict (s_root s')) [k] <> lookup_path (VDict root) [k].
+Proof. exact merge_frame_static_refuted. Qed.
+Print Assumptions C10_merge_frame_static_refuted.
+
+(** * keys are formatted: every written path is named by the incoming tree *)
+Theorem C10_keys_formatted : forall ff fuel root add stt s',
+  merge_top ff fuel root add = (stt, s') ->
+  forall w, In w (s_tr s') -> named_by ff [] add w.
+Proof. exact merge_top_named. Qed.
+Print Assumptions C10_keys_formatted.
+
+Theorem C10_keys_formatted_anywhere : forall ff prot fuel s a items stt s',
+  merge_rec ff prot fuel s a items = (stt, s') ->
+  exists new, s_tr s' = (new ++ s_tr s)%list /\ forall w, In w new -> named_by ff a items w.
+Proof. exact merge_rec_named. Qed.
+Print Assumptions C10_keys_formatted_anywhere.
+
+(** a brace-free (or non-string) key names itself *)
+Theorem C10_literal_key_names_itself : forall f c k kf,
+  lit_key k -> format_value (S f) c k = Ok kf -> kf = k.
+Proof. exact lit_key_formats_to_itself. Qed.
+Print Assumptions C10_literal_key_names_itself.
+
+(** * merge: the type-clash table, one theorem per row *)
+Theorem C10_table_str_or_tag_overwrites : forall ff prot rec s a k v kf,
+  fmt ff s k = Ok kf -> key_kind_ok kf = true ->
+  forall x, is_strtag v = true -> fmtv ff s v = Ok x ->
+  merge_item ff prot rec s a k v = assign prot s a kf x (leaf_share (s_root s) v x).
+Proof. exact row_str. Qed.
+Print Assumptions C10_table_str_or_tag_overwrites.
+
+Theorem C10_table_bytes_overwrite_raw : forall ff prot rec s a k v kf,
+  fmt ff s k = Ok kf -> key_kind_ok kf = true ->
+  forall b, v = VBytes b -> merge_item ff prot rec s a k v = assign prot s a kf v ShNone.
+Proof. exact row_bytes. Qed.
+Print Assumptions C10_table_bytes_overwrite_raw.
+
+Theorem C10_table_absent_sets_formatted : forall ff prot rec s a k v kf,
+  fmt ff s k = Ok kf -> key_kind_ok kf = true ->
+  forall cur, cur_dict s a = Some cur ->
+  is_strtag v = false -> (forall b, v <> VBytes b) ->
+  forall x, dict_get kf cur = None -> fmtv ff s v = Ok x ->
+  merge_item ff prot rec s a k v = assign prot s a kf x (tree_share ff (s_root s) v).
+Proof. exact row_absent. Qed.
+Print Assumptions C10_table_absent_sets_formatted.
+
+Theorem C10_table_map_map_recurses : forall ff prot rec s a k v kf,
+  fmt ff s k = Ok kf -> key_kind_ok kf = true ->
+  forall cur, cur_dict s a = Some cur ->
+  forall d l, dict_get kf cur = Some (VDict d) -> v = VDict l ->
+  merge_item ff prot rec s a k v = rec s (a ++ [kf])%list l.
+Proof. exact row_map_map. Qed.
+Print Assumptions C10_table_map_map_recurses.
+
+Theorem C10_table_list_list_extends : forall ff prot rec s a k v kf,
+  fmt ff s k = Ok kf -> key_kind_ok kf = true ->
+  forall cur, cur_dict s a = Some cur ->
+  forall el l xl, dict_get kf cur = Some (VList el) -> v = VList l -> fmtv ff s v = Ok (VList xl) ->
+  merge_item ff prot rec s a k v = extend prot s (a ++ [kf])%list xl (tree_share ff (s_root s) v).
+Proof. exact row_list_list. Qed.
+Print Assumptions C10_table_list_list_extends.
+
+Theorem C10_table_tuple_tuple_concats : forall ff prot rec s a k v kf,
+  fmt ff s k = Ok kf -> key_kind_ok kf = true ->
+  forall cur, cur_dict s a = Some cur ->
+  forall el l xl, dict_get kf cur = Some (VTuple el) -> v = VTuple l -> fmtv ff s v = Ok (VTuple xl) ->
+  merge_item ff prot rec s a k v
+  = assign prot s a kf (VTuple (el ++ xl)%list) (tree_share ff (s_root s) v).
+Proof. exact row_tuple_tuple. Qed.
+Print Assumptions C10_table_tuple_tuple_concats.
+
+Theorem C10_table_set_set_unions : forall ff prot rec s a k v kf,
+  fmt ff s k = Ok kf -> key_kind_ok kf = true ->
+  forall cur, cur_dict s a = Some cur ->
+  forall el l xl u, dict_get kf cur = Some (VSet el) -> v = VSet l -> fmtv ff s v = Ok (VSet xl) ->
+  set_of_list (el ++ xl)%list = Some u ->
+  merge_item ff prot rec s a k v = assign prot s a kf (VSet u) ShNone.
+Proof. exact row_set_set. Qed.
+Print Assumptions C10_table_set_set_unions.
+
+Theorem C10_table_clash_overwrites : forall ff prot rec s a k v kf,
+  fmt ff s k = Ok kf -> key_kind_ok kf = true ->
+  forall cur, cur_dict s a = Some cur ->
+  is_strtag v = false -> (forall b, v <> VBytes b) ->
+  forall ev x, dict_get kf cur = Some ev -> mergeable ev v = false -> fmtv ff s v = Ok x ->
+  merge_item ff prot rec s a k v = assign prot s a kf x (tree_share ff (s_root s) v).
+Proof. exact row_clash. Qed.
+Print Assumptions C10_table_clash_overwrites.
+
+(** what the two primitive writes of the table do to the tree *)
+Theorem C10_assign_overwrites : forall s a k x cur,
+  s_sh s = NoShare -> cur_dict s a = Some cur ->
+  exists s', assign None s a k x ShNone = (SOk, s') /\ s_sh s' = NoShare /\
+    s_tr s' = (a ++ [k])%list :: s_tr s /\
+    lookup_path (VDict (s_root s')) (a ++ [k])%list = Some x /\
+    cur_dict s' a = Some (dict_set k x cur).
+Proof. exact assign_effect. Qed.
+Print Assumptions C10_assign_overwrites.
+
+Theorem C10_extend_appends : forall s w xs el,
+  s_sh s = NoShare -> lookup_path (VDict (s_root s)) w = Some (VList el) ->
+  exists s', extend None s w xs ShNone = (SOk, s') /\ s_sh s' = NoShare /\
+    s_tr s' = w :: s_tr s /\
+    lookup_path (VDict (s_root s')) w = Some (VList (el ++ xs)%list).
+Proof. exact extend_effect. Qed.
+Print Assumptions C10_extend_appends.
+
+(** * lists, tuples, sets: existing members first, the formatted incoming members after *)
+Theorem C10_merge_appends_after_list : forall f rec s a k kf cur l el x,
+  s_sh s = NoShare -> fmt (S f) s k = Ok kf -> key_kind_ok kf = true ->
+  cur_dict s a = Some cur -> dict_get kf cur = Some (VList el) ->
+  fmtv (S f) s (VList l) = Ok x -> tree_share (S f) (s_root s) (VList l) = ShNone ->
+  exists xl s',
+    Forall2 (fun m y => format_value f (s_root s) m = Ok y) l xl /\
+    merge_item (S f) None rec s a k (VList l) = (SOk, s') /\
+    lookup_path (VDict (s_root s')) (a ++ [kf])%list = Some (VList (el ++ xl)%list) /\
+    s_tr s' = (a ++ [kf])%list :: s_tr s.
+Proof. exact merge_list_appends_after. Qed.
+Print Assumptions C10_merge_appends_after_list.
+
+Theorem C10_merge_appends_after_tuple : forall f rec s a k kf cur l el x,
+  s_sh s = NoShare -> fmt (S f) s k = Ok kf -> key_kind_ok kf = true ->
+  cur_dict s a = Some cur -> dict_get kf cur = Some (VTuple el) ->
+  fmtv (S f) s (VTuple l) = Ok x -> tree_share (S f) (s_root s) (VTuple l) = ShNone ->
+  exists xl s',
+    Forall2 (fun m y => format_value f (s_root s) m = Ok y) l xl /\
+    merge_item (S f) None rec s a k (VTuple l) = (SOk, s') /\
+    lookup_path (VDict (s_root s')) (a ++ [kf])%list = Some (VTuple (el ++ xl)%list).
+Proof. exact merge_tuple_appends_after. Qed.
+Print Assumptions C10_merge_appends_after_tuple.
+
+Theorem C10_merge_set_union : forall f rec s a k kf cur l el,
+  s_sh s = NoShare -> fmt (S f) s k = Ok kf -> key_kind_ok kf = true ->
+  cur_dict s a = Some cur ->
+  forall u xl, dict_get kf cur = Some (VSet el) -> fmtv (S f) s (VSet l) = Ok (VSet xl) ->
+  set_of_list (el ++ xl)%list = Some u ->
+  exists s',
+    merge_item (S f) None rec s a k (VSet l) = (SOk, s') /\
+    lookup_path (VDict (s_root s')) (a ++ [kf])%list = Some (VSet u) /\
+    forall y, In y u <-> In y el \/ In y xl.
+Proof. exact merge_set_union. Qed.
+Print Assumptions C10_merge_set_union.
+
+(** * set_defaults *)
+(** FULL STATEMENT (false, see [C10_defaults_frame_refuted]): as below without
+    [s_sh s' = NoShare]. *)
+Theorem C10_defaults_never_overwrite_partial : forall ff fuel root add stt s',
+  defaults_top ff fuel root add = (stt, s') -> s_sh s' = NoShare ->
+  forall p x, lookup_path (VDict root) p = Some x ->
+    exists x', lookup_path (VDict (s_root s')) p = Some x' /\
+      match x with VDict _ => exists d', x' = VDict d' | _ => x' = x end.
+Proof. exact defaults_top_never_overwrites. Qed.
+Print Assumptions C10_defaults_never_overwrite_partial.
+
+(** ... even when the existing value is None *)
+Theorem C10_defaults_keeps_none_partial : forall ff fuel root add stt s' p,
+  defaults_top ff fuel root add = (stt, s') -> s_sh s' = NoShare ->
+  lookup_path (VDict root) p = Some VNone -> lookup_path (VDict (s_root s')) p = Some VNone.
+Proof. exact defaults_top_keeps_none. Qed.
+Print Assumptions C10_defaults_keeps_none_partial.
+
+(** it adds exactly the missing ones: (1) every path it writes was missing, *)
+Theorem C10_defaults_writes_only_missing_partial : forall ff fuel root add stt s',
+  defaults_top ff fuel root add = (stt, s') -> s_sh s' = NoShare ->
+  forall w, In w (s_tr s') -> lookup_path (VDict root) w = None.
+Proof. exact defaults_top_writes_only_missing. Qed.
+Print Assumptions C10_defaults_writes_only_missing_partial.
+
+(** (2) nothing else appears or changes: the frame, *)
+Theorem C10_defaults_frame_partial : forall ff fuel root add stt s',
+  defaults_top ff fuel root add = (stt, s') -> s_sh s' = NoShare ->
+  forall p, (forall w, In w (s_tr s') -> disjoint p w) ->
+    lookup_path (VDict (s_root s')) p = lookup_path (VDict root) p.
+Proof. exact defaults_top_frame. Qed.
+Print Assumptions C10_defaults_frame_partial.
+
+(** (3) every written path is named by the defaults tree (keys formatted), *)
+Theorem C10_defaults_keys_formatted : forall ff fuel root add stt s',
+  defaults_top ff fuel root add = (stt, s') ->
+  forall w, In w (s_tr s') -> named_by ff [] add w.
+Proof. exact defaults_top_named. Qed.
+Print Assumptions C10_defaults_keys_formatted.
+
+(** (4) and after a successful iteration the formatted key IS present. *)
+Theorem C10_defaults_adds_missing : forall ff prot f s a k v s',
+  defaults_item ff prot (defaults_rec ff prot f) s a k v = (SOk, s') -> s_sh s' = NoShare ->
+  exists kf cur', fmt ff s k = Ok kf /\ cur_dict s' a = Some cur' /\ dict_has kf cur' = true.
+Proof. exact defaults_rec_item_adds. Qed.
+Print Assumptions C10_defaults_adds_missing.
+
+Theorem C10_defaults_frame_refuted :
+  exists root add p s',
+    defaults_top FUEL FUEL root add = (SOk, s') /\
+    (forall w, In w (s_tr s') -> disjoint p w) /\
+    lookup_path (VDict root) p = None /\
+    lookup_path (VDict (s_root s')) p <> None.
+Proof. exact defaults_frame_refuted. Qed.
+Print Assumptions C10_defaults_frame_refuted.
+
+(** the set_defaults table *)
+Theorem C10_defaults_table_present_untouched : forall ff prot rec s a k v kf,
+  fmt ff s k = Ok kf -> key_kind_ok kf = true ->
+  forall cur, cur_dict s a = Some cur ->
+  forall ev, dict_get kf cur = Some ev ->
+  mergeable ev v = false \/ (forall d, ev <> VDict d) ->
+  defaults_item ff prot rec s a k v = (SOk, s).
+Proof. exact drow_present. Qed.
+Print Assumptions C10_defaults_table_present_untouched.
+
+Theorem C10_defaults_table_map_map_recurses : forall ff prot rec s a k v kf,
+  fmt ff s k = Ok kf -> key_kind_ok kf = true ->
+  forall cur, cur_dict s a = Some cur ->
+  forall d l, dict_get kf cur = Some (VDict d) -> v = VDict l ->
+  defaults_item ff prot rec s a k v = rec s (a ++ [kf])%list l.
+Proof. exact drow_map_map. Qed.
+Print Assumptions C10_defaults_table_map_map_recurses.
+
+Theorem C10_defaults_table_absent_sets_formatted : forall ff prot rec s a k v kf cur x,
+  fmt ff s k = Ok kf -> key_kind_ok kf = true -> cur_dict s a = Some cur ->
+  dict_get kf cur = None -> fmtv ff s v = Ok x ->
+  defaults_item ff prot rec s a k v
+  = assign prot s a kf x (if is_strtag v then leaf_share (s_root s) v x
+                          else tree_share ff (s_root s) v).
+Proof. exact drow_absent. Qed.
+Print Assumptions C10_defaults_table_absent_sets_formatted.
+
+(** * Non-vacuity: concrete instances through the real formatter (evaluated) *)
+Definition ex_root : dict :=
+  [(VStr "k1", VStr "a"); (VStr "z", VInt 5);
+   (VStr "a", VDict [(VStr "b", VInt 1); (VStr "c", VInt 2)]);
+   (VStr "l", VList [VInt 1]); (VStr "t", VTuple [VInt 1]); (VStr "st", VSet [VInt 1]);
+   (VStr "i", VInt 7); (VStr "n", VNone)].
+
+(** formatted key, nested recursion, a value reading a key merged a moment earlier; the trace
+    is exactly the written paths and the sibling [a/c] is untouched *)
+Example C10_merge_frame_nonvacuous :
+  let o := merge_top FUEL FUEL ex_root
+             [(VStr "z", VInt 6); (VStr "{k1}", VDict [(VStr "b", VStr "{z}")]);
+              (VStr "l", VList [VStr "{z}"]); (VStr "t", VTuple [VInt 2]);
+              (VStr "st", VSet [VInt 2]); (VStr "i", VList [VInt 0]); (VStr "new", VBytes "{z}")] in
+  fst o = SOk /\ s_sh (snd o) = NoShare /\
+  s_tr (snd o) = [[VStr "new"]; [VStr "i"]; [VStr "st"]; [VStr "t"]; [VStr "l"];
+                  [VStr "a"; VStr "b"]; [VStr "z"]] /\
+  s_root (snd o) =
+    [(VStr "k1", VStr "a"); (VStr "z", VInt 6);
+     (VStr "a", VDict [(VStr "b", VInt 6); (VStr "c", VInt 2)]);
+     (VStr "l", VList [VInt 1; VInt 6]); (VStr "t", VTuple [VInt 1; VInt 2]);
+     (VStr "st", VSet [VInt 1; VInt 2]); (VStr "i", VList [VInt 0]); (VStr "n", VNone);
+     (VStr "new", VBytes "{z}")] /\
+  disjointb [VStr "a"; VStr "c"] [VStr "a"; VStr "b"] = true.
+Proof. vm_compute. repeat split. Qed.
+
+(** set_defaults: None is kept, a present key of another kind is kept, the missing nested
+    key is added, the missing top-level key is added formatted *)
+Example C10_defaults_nonvacuous :
+  let o := defaults_top FUEL FUEL ex_root
+             [(VStr "n", VStr "x"); (VStr "i", VDict [(VStr "q", VInt 1)]);
+              (VStr "{k1}", VDict [(VStr "b", VInt 9); (VStr "d", VStr "{z}")]);
+              (VStr "new{z}", VList [VStr "{i}"])] in
+  fst o = SOk /\ s_sh (snd o) = NoShare /\
+  s_tr (snd o) = [[VStr "new5"]; [VStr "a"; VStr "d"]] /\
+  lookup_path (VDict (s_root (snd o))) [VStr "n"] = Some VNone /\
+  lookup_path (VDict (s_root (snd o))) [VStr "i"] = Some (VInt 7) /\
+  lookup_path (VDict (s_root (snd o))) [VStr "a"] =
+    Some (VDict [(VStr "b", VInt 1); (VStr "c", VInt 2); (VStr "d", VInt 5)]) /\
+  lookup_path (VDict (s_root (snd o))) [VStr "new5"] = Some (VList [VInt 7]).
+Proof. vm_compute. repeat split. Qed.
+
+(** an error half-way: the earlier items stay merged, the state is still reported *)
+Example C10_partial_merge_nonvacuous :
+  let o := merge_top FUEL FUEL ex_root [(VStr "z", VInt 6); (VStr "q", VStr "{nope}"); (VStr "i", VInt 0)] in
+  fst o = SErr "pypyr.errors.KeyNotInContextError" "nope not found in the pypyr context." /\
+  s_tr (snd o) = [[VStr "z"]] /\
+  lookup_path (VDict (s_root (snd o))) [VStr "z"] = Some (VInt 6) /\
+  lookup_path (VDict (s_root (snd o))) [VStr "i"] = Some (VInt 7).
+Proof. vm_compute. repeat split. Qed.
+
+(** the steps: the incoming mapping is context['contextMerge'] / context['defaults'] *)
+Example C10_steps_nonvacuous :
+  let o := step_run true FUEL FUEL (ex_root ++ [(VStr "contextMerge", VDict [(VStr "{k1}", VDict [(VStr "b", VInt 3)])])])%list in
+  let d := step_run false FUEL FUEL (ex_root ++ [(VStr "defaults", VDict [(VStr "n", VInt 3); (VStr "m", VInt 3)])])%list in
+  fst o = SOk /\ lookup_path (VDict (s_root (snd o))) [VStr "a"; VStr "b"] = Some (VInt 3) /\
+  fst d = SOk /\ lookup_path (VDict (s_root (snd d))) [VStr "n"] = Some VNone /\
+  lookup_path (VDict (s_root (snd d))) [VStr "m"] = Some (VInt 3).
+Proof. vm_compute. repeat split. Qed.
